@@ -468,10 +468,12 @@ class _Split(ast.NodeTransformer):
         out = []
         for st in body:
             st = self.visit(st)
-            if isinstance(st, ast.Assign) and isinstance(st.value, ast.IfExp) and len(st.targets) == 1 and isinstance(st.targets[0], ast.Name):
+            if isinstance(st, ast.Assign) and isinstance(st.value, ast.IfExp) and len(st.targets) == 1 and (isinstance(st.targets[0], ast.Name) or (
+                    isinstance(st.targets[0], ast.Tuple) and all(isinstance(t_, ast.Name) for t_ in st.targets[0].elts))):
+                import copy as _copy
                 v = st.value
                 a = ast.copy_location(ast.Assign(targets=[st.targets[0]], value=v.body, lineno=st.lineno), st)
-                b = ast.copy_location(ast.Assign(targets=[ast.Name(id=st.targets[0].id, ctx=ast.Store())], value=v.orelse, lineno=st.lineno), st)
+                b = ast.copy_location(ast.Assign(targets=[_copy.deepcopy(st.targets[0])], value=v.orelse, lineno=st.lineno), st)
                 out.append(ast.copy_location(ast.If(test=v.test, body=[a], orelse=[b]), st))
             elif isinstance(st, ast.Return) and isinstance(st.value, ast.IfExp):
                 v = st.value
@@ -586,6 +588,8 @@ def _unroll_table_loops(tree: ast.Module, known: set) -> None:
         if isinstance(x, ast.Name) and isinstance(x.ctx, (ast.Store, ast.Del)):
             stores[x.id] = stores.get(x.id, 0) + 1
     for st in tree.body:
+        if isinstance(st, ast.AnnAssign) and st.value is not None and isinstance(st.target, ast.Name):
+            st = ast.copy_location(ast.Assign(targets=[st.target], value=st.value), st)  # an annotated table is a table
         if isinstance(st, ast.Assign) and len(st.targets) == 1 and isinstance(st.targets[0], ast.Name) and isinstance(st.value, (ast.Tuple, ast.List)) \
                 and 0 < len(st.value.elts) <= 8 and all(_static_elem(e) for e in st.value.elts) and stores.get(st.targets[0].id) == 1 and st.targets[0].id not in known:
             nm = st.targets[0].id
@@ -831,6 +835,44 @@ def _thread_sentinels(tree: ast.Module) -> None:
         else:
             arm.append(copy.deepcopy(nxt))
 
+    def arm_constant(arm, x):
+        """the constant the arm binds x to (one top-level `x = <constant>`, no other store of x anywhere in the arm), else NOVAL"""
+        found = NOVAL
+        for a_ in arm:
+            stores = [n_ for n_ in ast.walk(a_) if isinstance(n_, ast.Name) and n_.id == x and isinstance(n_.ctx, (ast.Store, ast.Del))]
+            if not stores:
+                continue
+            if isinstance(a_, ast.Assign) and len(a_.targets) == 1 and isinstance(a_.targets[0], ast.Name) and a_.targets[0].id == x and isinstance(a_.value, ast.Constant) \
+                    and len(stores) == 1 and found is NOVAL:
+                found = a_.value
+            else:
+                return NOVAL
+        return found
+
+    def sink_constants(st: ast.If, nxt: ast.stmt) -> bool:
+        reads = {n_.id for n_ in ast.walk(nxt) if isinstance(n_, ast.Name) and isinstance(n_.ctx, ast.Load)}
+        writes = {n_.id for n_ in ast.walk(nxt) if isinstance(n_, ast.Name) and isinstance(n_.ctx, (ast.Store, ast.Del))}
+        cands = []
+        for x in sorted(reads - writes):
+            ka, kb = arm_constant(st.body, x), arm_constant(st.orelse, x)
+            if ka is not NOVAL and kb is not NOVAL and isinstance(ka.value, (str, bytes, int, bool, type(None))) and ast.dump(ka) != ast.dump(kb):
+                cands.append((x, ka, kb))
+        if not cands or any(isinstance(n_, (ast.Lambda, ast.GeneratorExp, ast.ListComp, ast.SetComp, ast.DictComp)) for n_ in ast.walk(nxt)):
+            return False
+        # both arms must end by falling through (nothing after a return / raise would run)
+        if any(isinstance(arm[-1], (ast.Return, ast.Raise, ast.Break, ast.Continue)) for arm in (st.body, st.orelse)):
+            return False
+        for arm, idx in ((st.body, 1), (st.orelse, 2)):
+            m_ = {c[0]: c[idx] for c in cands}
+
+            class S(ast.NodeTransformer):
+                def visit_Name(self, n_: ast.Name):
+                    if n_.id in m_ and isinstance(n_.ctx, ast.Load):
+                        return ast.copy_location(copy.deepcopy(m_[n_.id]), n_)
+                    return n_
+            arm.append(S().visit(copy.deepcopy(nxt)))
+        return True
+
     def walk(body):
         i = 0
         while i < len(body):
@@ -842,6 +884,12 @@ def _thread_sentinels(tree: ast.Module) -> None:
             if isinstance(st, ast.Try):
                 for h in st.handlers:
                     walk(h.body)
+            if isinstance(st, ast.If) and st.body and st.orelse and i + 1 < len(body) and isinstance(body[i + 1], (ast.Assign, ast.AugAssign, ast.Expr, ast.Return)) \
+                    and sink_constants(st, body[i + 1]):
+                # C26: a selector constant bound on both arms (`m = "alg"` / `m = "enc"`) and read by the next statement: the statement moves into
+                # both arms with the constant in place (`header[m]` is `header["alg"]` / `header["enc"]`)
+                del body[i + 1]
+                continue
             if isinstance(st, ast.If) and st.body and st.orelse and i + 1 < len(body) and isinstance(body[i + 1], ast.If):
                 nxt = body[i + 1]
                 sim = simple_test(nxt.test)
@@ -871,11 +919,11 @@ def canonicalise(tree: ast.Module, module: str = "") -> ast.Module:
         _unroll_table_loops(tree, known)
     if os.environ.get("JV_CANON_C14", "1") == "1":
         tree = _DropAnn().visit(tree)
-    if os.environ.get("JV_CANON_C25", "1") == "1":
-        _split_tuple_assigns(tree)
     if os.environ.get("JV_CANON_C11", "1") == "1":
         tree = _Split().visit(tree)
         tree.body = _nest_guards(tree.body, False)
+    if os.environ.get("JV_CANON_C25", "1") == "1":
+        _split_tuple_assigns(tree)
     tree = _Canon().visit(tree)
     if os.environ.get("JV_CANON_C22", "1") == "1":
         _merge_same_test_ifs(tree)
